@@ -3,7 +3,7 @@
 //@source gm-sm2/src/p256_ecc.rs
 //@tables sm2
 //@lean sm2_point_dbl sm2_point_add sm2_is_valid sm2_is_valid_affine sm2_to_affine
-//@assume Point::point_add / point_dbl: bodies are NOT verified by Verus against their group-law contracts; their formulas are checked by Lean obligations (ring identities generated from the real code); the case analysis connecting those identities to the contracts (infinity, h = 0, Montgomery decoding) is assumed
+//@assume Point::point_add / point_dbl are verified by Verus against their group-law contracts; the 17 `ring_*` lemmas they rest on (integer-polynomial identities, external_body in Verus) are discharged on every run by Lean `ring` (vf/ringcheck.py; any other shape is refused); what stays assumed about the group is ax_group_closed / ax_inv_p and the associativity/order axioms of sm2_math
 //@assume rewrite: `for (i, x) in a.iter().enumerate()` over an array is the indexed loop `for i in 0..a.len() { let x = &a[i]; ...` (declared textual rewrite)
 //@assume ax_sm2_table: every entry of SM2P256_PRECOMPUTED is the Montgomery form of the affine point [j*256^i]G - discharged on every run by exhaustive ground evaluation (tools/check_tables.py), not by Verus
 //@rewrite-text for (index, scalar_word) in g.iter().enumerate() { ==> for index in 0..g.len() { let scalar_word = &g[index];
@@ -344,7 +344,6 @@ impl Point {
         }
     }
 
-    #[verifier::external_body]
     fn point_add(&self, p: &Point) -> (r: Point)
         requires valid(*self), valid(*p)
         ensures wf(r),
@@ -372,6 +371,7 @@ impl Point {
 
         // p1 = p2
         if x1 == x2 && y1 == y2 && z1 == z2 {
+            proof { assert(x1@ == x2@ && y1@ == y2@ && z1@ == z2@); }
             return self.point_dbl();
         } else {
             let z1_sqr = z1.fp_sqr();
@@ -395,6 +395,10 @@ impl Point {
             let s1_hhh = s1.fp_mul(&hhh);
             let y3 = r_v_x3.fp_sub(&s1_hhh);
             let z3 = z1.fp_mul(&z2).fp_mul(&h);
+            proof {
+                ecc_add_main(x1@, y1@, z1@, x2@, y2@, z2@, x3@, y3@, z3@, fe(z1_sqr@), fe(z2_sqr@), fe(u1@), fe(u2@), fe(y1_z2@), fe(s1@), fe(y2_z1@), fe(s2@),
+                    fe(h@), fe(r@), fe(hh@), fe(hhh@), fe(v@), fe(r_sqr@), fe(r_sqr_hhh@), fe(v_x3@), fe(r_v_x3@), fe(s1_hhh@));
+            }
             Point {
                 x: x3,
                 y: y3,
@@ -526,7 +530,6 @@ impl Point {
         r
     }
 
-    #[verifier::external_body]
     fn point_dbl(&self) -> (r: Point)
         requires valid(*self)
         ensures valid(r), abs(r) == g_add(abs(*self), abs(*self))
@@ -547,6 +550,9 @@ impl Point {
 
         let y1_z1 = y1.fp_add(&z1);
         let z3 = y1_z1.fp_sqr().fp_sub(&y1_sqr).fp_sub(&z1_sqr);
+        proof {
+            ecc_dbl_main(self.x@, self.y@, self.z@, x3@, y3@, z3@, fe(z1_sqr@), fe(y1_sqr@), fe(alpha_m3@), fe(lam6_m4@), fe(u1@), fe(u2@), fe(y1_z1@));
+        }
 
         Point {
             x: x3,
@@ -1178,4 +1184,491 @@ pub proof fn ecc_lo_32(s: Seq<u64>) requires s.len() == 4 ensures ecc_lo(s, 32) 
     ecc_lo_word(s, 0); ecc_lo_word(s, 1); ecc_lo_word(s, 2); ecc_lo_word(s, 3);
     assert(pow256(0) == 1 && pow256(8) == 0x1_0000_0000_0000_0000int && pow256(16) == 0x1_0000_0000_0000_0000int * 0x1_0000_0000_0000_0000int
         && pow256(24) == 0x1_0000_0000_0000_0000int * 0x1_0000_0000_0000_0000int * 0x1_0000_0000_0000_0000int) by(compute);
+}
+// ---------------------------------------------------------------- congruence toolkit for the group-law proofs (point_dbl, point_add)
+pub proof fn ecc_modmod(a: int) ensures (a % P()) % P() == a % P()
+{ ecc_pos(); lemma_mod_twice(a, P()); }
+// r is (a op b) % p, the operands are known up to congruence: r == a2 op b2 (mod p)
+pub proof fn ecc_cm(r: int, a: int, b: int, a2: int, b2: int) requires r == (a * b) % P(), a % P() == a2 % P(), b % P() == b2 % P() ensures r % P() == (a2 * b2) % P()
+{ ecc_modmod(a * b); ecc_cong_mul(a, a2, b); ecc_cong_mul(b, b2, a2); }
+pub proof fn ecc_ca(r: int, a: int, b: int, a2: int, b2: int) requires r == (a + b) % P(), a % P() == a2 % P(), b % P() == b2 % P() ensures r % P() == (a2 + b2) % P()
+{ ecc_modmod(a + b); ecc_cong_add(a, a2, b, b2); }
+pub proof fn ecc_cs(r: int, a: int, b: int, a2: int, b2: int) requires r == (a - b) % P(), a % P() == a2 % P(), b % P() == b2 % P() ensures r % P() == (a2 - b2) % P()
+{ ecc_modmod(a - b); ecc_cong_add(a, a2, b, b2); }
+pub proof fn ecc_ck(r: int, k: int, a: int, a2: int) requires r == (k * a) % P(), a % P() == a2 % P() ensures r % P() == (k * a2) % P()
+{ ecc_modmod(k * a); ecc_cong_mul(a, a2, k); }
+// a == b (mod p)  <==>  a - b == 0 (mod p)
+pub proof fn ecc_diff(a: int, b: int) ensures ((a - b) % P() == 0) == (a % P() == b % P())
+{
+    ecc_pos(); ecc_small(0);
+    if (a - b) % P() == 0 { ecc_cong_add(a - b, 0, b, b); }
+    if a % P() == b % P() { ecc_cong_add(a, b, b, b); }
+}
+// linear combinations of things that vanish mod p vanish mod p
+pub proof fn ecc_lin1(e1: int, k1: int) requires e1 % P() == 0 ensures (e1 * k1) % P() == 0
+{ ecc_pos(); ecc_small(0); ecc_cong_mul(e1, 0, k1); assert(0 * k1 == 0); }
+pub proof fn ecc_lin2(e1: int, k1: int, e2: int, k2: int) requires e1 % P() == 0, e2 % P() == 0
+    ensures (e1 * k1 + e2 * k2) % P() == 0, (e1 * k1 - e2 * k2) % P() == 0
+{ ecc_pos(); ecc_small(0); ecc_lin1(e1, k1); ecc_lin1(e2, k2); ecc_cong_add(e1 * k1, 0, e2 * k2, 0); }
+pub proof fn ecc_lin3(e1: int, k1: int, e2: int, k2: int, e3: int) requires e1 % P() == 0, e2 % P() == 0, e3 % P() == 0
+    ensures (e1 * k1 + e2 * k2 + e3) % P() == 0
+{ ecc_pos(); ecc_small(0); ecc_lin2(e1, k1, e2, k2); ecc_cong_add(e1 * k1 + e2 * k2, 0, e3, 0); }
+// p is prime (through ax_inv_p): no zero divisors
+pub proof fn ecc_nz_mul(a: int, b: int) requires a % P() != 0, b % P() != 0 ensures (a * b) % P() != 0
+{
+    if (a * b) % P() == 0 {
+        ax_inv_p(a);
+        let ai = inv_p(a);
+        ecc_lin1(a * b, ai);
+        assert((a * b) * ai == b * (a * ai)) by(nonlinear_arith);
+        ecc_unit(b, a * ai);
+    }
+}
+// ---------------------------------------------------------------- ring axioms: integer polynomial identities, each proved by Lean `ring` (vf.ringcheck)
+#[verifier::external_body]
+pub proof fn ring_par2(xa: int, x: int, z: int, zi: int)
+    ensures xa * z * z - x
+        == (xa - x * zi * zi) * (z * z) + (z * zi - 1) * (x * (z * zi + 1))
+{ }
+#[verifier::external_body]
+pub proof fn ring_par3(ya: int, y: int, z: int, zi: int)
+    ensures ya * z * z * z - y
+        == (ya - y * zi * zi * zi) * (z * z * z) + (z * zi - 1) * (y * (z * zi * (z * zi) + z * zi + 1))
+{ }
+#[verifier::external_body]
+pub proof fn ring_div2(a: int, b: int, z: int, w: int)
+    ensures a * w * w - b
+        == (a - b * (z * z)) * (w * w) + (z * w - 1) * (b * (z * w + 1))
+{ }
+#[verifier::external_body]
+pub proof fn ring_div3(a: int, b: int, z: int, w: int)
+    ensures a * w * w * w - b
+        == (a - b * (z * z * z)) * (w * w * w) + (z * w - 1) * (b * (z * w * (z * w) + z * w + 1))
+{ }
+// ---------------------------------------------------------------- Jacobian <-> affine
+// affine coordinates xa = x / z^2, ya = y / z^3 give back x == xa z^2, y == ya z^3 (mod p)
+pub proof fn ecc_param(x: int, y: int, z: int, zi: int, xa: int, ya: int)
+    requires (z * zi) % P() == 1, xa == (x * zi * zi) % P(), ya == (y * zi * zi * zi) % P()
+    ensures x % P() == (xa * z * z) % P(), y % P() == (ya * z * z * z) % P()
+{
+    ecc_pos(); ecc_small(1);
+    ecc_modmod(x * zi * zi); ecc_modmod(y * zi * zi * zi);
+    ecc_diff(xa, x * zi * zi); ecc_diff(ya, y * zi * zi * zi); ecc_diff(z * zi, 1);
+    ring_par2(xa, x, z, zi);
+    ecc_lin2(xa - x * zi * zi, z * z, z * zi - 1, x * (z * zi + 1));
+    ecc_diff(xa * z * z, x);
+    ring_par3(ya, y, z, zi);
+    ecc_lin2(ya - y * zi * zi * zi, z * z * z, z * zi - 1, y * (z * zi * (z * zi) + z * zi + 1));
+    ecc_diff(ya * z * z * z, y);
+}
+// dividing by z^2 and z^3: a == b z^2 (mod p) gives a / z^2 == b
+pub proof fn ecc_div2(a: int, b: int, z: int, w: int) requires a % P() == (b * (z * z)) % P(), (z * w) % P() == 1 ensures (a * w * w) % P() == b % P()
+{
+    ecc_pos(); ecc_small(1);
+    ecc_diff(a, b * (z * z)); ecc_diff(z * w, 1);
+    ring_div2(a, b, z, w);
+    ecc_lin2(a - b * (z * z), w * w, z * w - 1, b * (z * w + 1));
+    ecc_diff(a * w * w, b);
+}
+pub proof fn ecc_div3(a: int, b: int, z: int, w: int) requires a % P() == (b * (z * z * z)) % P(), (z * w) % P() == 1 ensures (a * w * w * w) % P() == b % P()
+{
+    ecc_pos(); ecc_small(1);
+    ecc_diff(a, b * (z * z * z)); ecc_diff(z * w, 1);
+    ring_div3(a, b, z, w);
+    ecc_lin2(a - b * (z * z * z), w * w * w, z * w - 1, b * (z * w * (z * w) + z * w + 1));
+    ecc_diff(a * w * w * w, b);
+}
+// a non-zero residue has non-zero affine images, and an affine point on the curve has ya != 0 (no 2-torsion)
+pub proof fn ecc_aff_nonzero(x: int, y: int, z: int)
+    requires 0 <= x < P(), 0 <= y < P(), 0 < z < P(),
+        on_curve(Pt::Aff { x: (x * inv_p(z) * inv_p(z)) % P(), y: (y * inv_p(z) * inv_p(z) * inv_p(z)) % P() })
+    ensures (z * inv_p(z)) % P() == 1, (y * inv_p(z) * inv_p(z) * inv_p(z)) % P() != 0, y != 0,
+        (2 * ((y * inv_p(z) * inv_p(z) * inv_p(z)) % P())) % P() != 0
+{
+    ecc_pos(); ecc_small(z); ecc_small(0); ecc_small(2);
+    ax_inv_p(z);
+    let zi = inv_p(z);
+    let xa = (x * zi * zi) % P(); let ya = (y * zi * zi * zi) % P();
+    ecc_range(x * zi * zi); ecc_range(y * zi * zi * zi);
+    if ya == 0 {
+        assert(ya * ya == 0) by(nonlinear_arith) requires ya == 0;
+        ecc_no_2torsion(xa);
+    }
+    if y == 0 {
+        assert(y * zi * zi * zi == 0) by(nonlinear_arith) requires y == 0;
+    }
+    ecc_small(ya);
+    ecc_nz_mul(2, ya);
+}
+// ---------------------------------------------------------------- point_dbl
+// the values computed by point_dbl (every field operation reduces mod p)
+pub open spec fn ecc_dbl_rel(X: int, Y: int, Z: int, zz: int, yy: int, al: int, l6: int, x3: int, u1: int, u2: int, y3: int, yz: int, z3: int) -> bool {
+    zz == (Z * Z) % P() && yy == (Y * Y) % P()
+    && al == (3 * ((((X - zz) % P()) * ((X + zz) % P())) % P())) % P()
+    && l6 == (2 * ((2 * ((X * yy) % P())) % P())) % P()
+    && x3 == ((al * al) % P() - (2 * l6) % P()) % P()
+    && u1 == (al * ((l6 - x3) % P())) % P()
+    && u2 == (2 * ((2 * ((2 * ((yy * yy) % P())) % P())) % P())) % P()
+    && y3 == (u1 - u2) % P()
+    && yz == (Y + Z) % P()
+    && z3 == ((((yz * yz) % P() - yy) % P()) - zz) % P()
+}
+// ... are congruent to the doubling polynomials, evaluated at anything congruent to the inputs
+pub proof fn ecc_dbl_chain(X: int, Y: int, Z: int, zz: int, yy: int, al: int, l6: int, x3: int, u1: int, u2: int, y3: int, yz: int, z3: int, Xp: int, Yp: int, Zp: int)
+    requires ecc_dbl_rel(X, Y, Z, zz, yy, al, l6, x3, u1, u2, y3, yz, z3), X % P() == Xp % P(), Y % P() == Yp % P(), Z % P() == Zp % P()
+    ensures ({
+        let A = 3 * ((Xp - Zp * Zp) * (Xp + Zp * Zp)); let L = 2 * (2 * (Xp * (Yp * Yp))); let X3 = A * A - 2 * L;
+        let U2 = 2 * (2 * (2 * ((Yp * Yp) * (Yp * Yp))));
+        x3 % P() == X3 % P() && y3 % P() == (A * (L - X3) - U2) % P() && z3 % P() == ((Yp + Zp) * (Yp + Zp) - Yp * Yp - Zp * Zp) % P() })
+{
+    let p = P();
+    let A = 3 * ((Xp - Zp * Zp) * (Xp + Zp * Zp)); let L = 2 * (2 * (Xp * (Yp * Yp))); let X3 = A * A - 2 * L;
+    let U2 = 2 * (2 * (2 * ((Yp * Yp) * (Yp * Yp))));
+    ecc_cm(zz, Z, Z, Zp, Zp);
+    ecc_cm(yy, Y, Y, Yp, Yp);
+    let t1 = (X - zz) % p; ecc_cs(t1, X, zz, Xp, Zp * Zp);
+    let t2 = (X + zz) % p; ecc_ca(t2, X, zz, Xp, Zp * Zp);
+    let t3 = (t1 * t2) % p; ecc_cm(t3, t1, t2, Xp - Zp * Zp, Xp + Zp * Zp);
+    ecc_ck(al, 3, t3, (Xp - Zp * Zp) * (Xp + Zp * Zp));
+    assert(al % p == A % p);
+    let m1 = (X * yy) % p; ecc_cm(m1, X, yy, Xp, Yp * Yp);
+    let m2 = (2 * m1) % p; ecc_ck(m2, 2, m1, Xp * (Yp * Yp));
+    ecc_ck(l6, 2, m2, 2 * (Xp * (Yp * Yp)));
+    assert(l6 % p == L % p);
+    let a2 = (al * al) % p; ecc_cm(a2, al, al, A, A);
+    let l2 = (2 * l6) % p; ecc_ck(l2, 2, l6, L);
+    ecc_cs(x3, a2, l2, A * A, 2 * L);
+    assert(x3 % p == X3 % p);
+    let d = (l6 - x3) % p; ecc_cs(d, l6, x3, L, X3);
+    ecc_cm(u1, al, d, A, L - X3);
+    let q = (yy * yy) % p; ecc_cm(q, yy, yy, Yp * Yp, Yp * Yp);
+    let q2 = (2 * q) % p; ecc_ck(q2, 2, q, (Yp * Yp) * (Yp * Yp));
+    let q4 = (2 * q2) % p; ecc_ck(q4, 2, q2, 2 * ((Yp * Yp) * (Yp * Yp)));
+    ecc_ck(u2, 2, q4, 2 * (2 * ((Yp * Yp) * (Yp * Yp))));
+    ecc_cs(y3, u1, u2, A * (L - X3), U2);
+    ecc_ca(yz, Y, Z, Yp, Zp);
+    let s = (yz * yz) % p; ecc_cm(s, yz, yz, Yp + Zp, Yp + Zp);
+    let s2 = (s - yy) % p; ecc_cs(s2, s, yy, (Yp + Zp) * (Yp + Zp), Yp * Yp);
+    ecc_cs(z3, s2, zz, (Yp + Zp) * (Yp + Zp) - Yp * Yp, Zp * Zp);
+}
+#[verifier::external_body]
+pub proof fn ring_dbl_x(xa: int, ya: int, z: int, lam: int)
+    ensures (lam * lam - xa - xa) * ((((ya * z * z * z) + z) * ((ya * z * z * z) + z) - (ya * z * z * z) * (ya * z * z * z) - z * z) * (((ya * z * z * z) + z) * ((ya * z * z * z) + z) - (ya * z * z * z) * (ya * z * z * z) - z * z)) - ((3 * (((xa * z * z) - z * z) * ((xa * z * z) + z * z))) * (3 * (((xa * z * z) - z * z) * ((xa * z * z) + z * z))) - 2 * (2 * (2 * ((xa * z * z) * ((ya * z * z * z) * (ya * z * z * z))))))
+        == (2 * ya * lam - (3 * xa * xa - 3)) * (((z * z * z * z) * (z * z * z * z)) * (2 * ya * lam + (3 * xa * xa - 3)))
+{ }
+#[verifier::external_body]
+pub proof fn ring_dbl_y(xa: int, ya: int, z: int, lam: int, s: int)
+    ensures (lam * (xa - s) - ya) * ((((ya * z * z * z) + z) * ((ya * z * z * z) + z) - (ya * z * z * z) * (ya * z * z * z) - z * z) * (((ya * z * z * z) + z) * ((ya * z * z * z) + z) - (ya * z * z * z) * (ya * z * z * z) - z * z) * (((ya * z * z * z) + z) * ((ya * z * z * z) + z) - (ya * z * z * z) * (ya * z * z * z) - z * z)) - ((3 * (((xa * z * z) - z * z) * ((xa * z * z) + z * z))) * ((2 * (2 * ((xa * z * z) * ((ya * z * z * z) * (ya * z * z * z))))) - ((3 * (((xa * z * z) - z * z) * ((xa * z * z) + z * z))) * (3 * (((xa * z * z) - z * z) * ((xa * z * z) + z * z))) - 2 * (2 * (2 * ((xa * z * z) * ((ya * z * z * z) * (ya * z * z * z))))))) - (2 * (2 * (2 * (((ya * z * z * z) * (ya * z * z * z)) * ((ya * z * z * z) * (ya * z * z * z)))))))
+        == (2 * ya * lam - (3 * xa * xa - 3)) * ((z * z * z * z) * ((2 * (2 * ((xa * z * z) * ((ya * z * z * z) * (ya * z * z * z))))) - s * ((((ya * z * z * z) + z) * ((ya * z * z * z) + z) - (ya * z * z * z) * (ya * z * z * z) - z * z) * (((ya * z * z * z) + z) * ((ya * z * z * z) + z) - (ya * z * z * z) * (ya * z * z * z) - z * z)))) - (s * ((((ya * z * z * z) + z) * ((ya * z * z * z) + z) - (ya * z * z * z) * (ya * z * z * z) - z * z) * (((ya * z * z * z) + z) * ((ya * z * z * z) + z) - (ya * z * z * z) * (ya * z * z * z) - z * z)) - ((3 * (((xa * z * z) - z * z) * ((xa * z * z) + z * z))) * (3 * (((xa * z * z) - z * z) * ((xa * z * z) + z * z))) - 2 * (2 * (2 * ((xa * z * z) * ((ya * z * z * z) * (ya * z * z * z))))))) * (3 * (((xa * z * z) - z * z) * ((xa * z * z) + z * z)))
+{ }
+#[verifier::external_body]
+pub proof fn ring_dbl_slope(xa: int, ya: int, lam: int, d: int, ca: int)
+    ensures 2 * ya * lam - (3 * xa * xa - 3)
+        == (lam - (3 * xa * xa + ca) * d) * (2 * ya) + (2 * ya * d - 1) * (3 * xa * xa + ca) + (ca + 3)
+{ }
+#[verifier::external_body]
+pub proof fn ring_dbl_z(y: int, z: int)
+    ensures (y + z) * (y + z) - y * y - z * z
+        == 2 * y * z
+{ }
+// affine doubling law for Jacobian inputs with Z != 0 (pure integer statement)
+pub proof fn ecc_dbl_aff(X: int, Y: int, Z: int, zz: int, yy: int, al: int, l6: int, x3: int, u1: int, u2: int, y3: int, yz: int, z3: int)
+    requires 0 <= X < P(), 0 <= Y < P(), 0 < Z < P(), 0 <= x3 < P(), 0 <= y3 < P(), 0 <= z3 < P(),
+        ecc_dbl_rel(X, Y, Z, zz, yy, al, l6, x3, u1, u2, y3, yz, z3),
+        on_curve(Pt::Aff { x: (X * inv_p(Z) * inv_p(Z)) % P(), y: (Y * inv_p(Z) * inv_p(Z) * inv_p(Z)) % P() })
+    ensures z3 != 0, ({ let q = Pt::Aff { x: (X * inv_p(Z) * inv_p(Z)) % P(), y: (Y * inv_p(Z) * inv_p(Z) * inv_p(Z)) % P() }; let w = inv_p(z3);
+        g_add(q, q) == Pt::Aff { x: (x3 * w * w) % P(), y: (y3 * w * w * w) % P() } })
+{
+    ecc_pos(); ecc_small(0); ecc_small(1); ecc_small(2);
+    let zi = inv_p(Z); let xa = (X * zi * zi) % P(); let ya = (Y * zi * zi * zi) % P();
+    ecc_aff_nonzero(X, Y, Z);
+    ecc_param(X, Y, Z, zi, xa, ya);
+    let z = Z;
+    let Xp = xa * z * z; let Yp = ya * z * z * z;
+    let A = 3 * ((Xp - z * z) * (Xp + z * z)); let L = 2 * (2 * (Xp * (Yp * Yp))); let X3 = A * A - 2 * L;
+    let U2 = 2 * (2 * (2 * ((Yp * Yp) * (Yp * Yp)))); let Y3 = A * (L - X3) - U2;
+    let Z3 = (Yp + z) * (Yp + z) - Yp * Yp - z * z;
+    ecc_dbl_chain(X, Y, Z, zz, yy, al, l6, x3, u1, u2, y3, yz, z3, Xp, Yp, z);
+    assert(x3 % P() == X3 % P() && y3 % P() == Y3 % P() && z3 % P() == Z3 % P());
+    // z3 == 2 Y Z is a unit
+    ring_dbl_z(Yp, z);
+    ecc_small(Y); ecc_small(Z); ecc_small(z3);
+    ecc_nz_mul(2, Yp); ecc_nz_mul(2 * Yp, z);
+    assert(z3 != 0);
+    ax_inv_p(z3);
+    let w = inv_p(z3);
+    ecc_cong_mul(z3, Z3, w);
+    // the slope: 2 ya lam == 3 xa^2 - 3
+    ecc_range(ya); ecc_small(ya);
+    ax_inv_p(2 * ya);
+    let d = inv_p(2 * ya);
+    let lam = ((3 * xa * xa + CA()) * d) % P();
+    ecc_modmod((3 * xa * xa + CA()) * d);
+    ecc_diff(lam, (3 * xa * xa + CA()) * d);
+    ecc_diff(2 * ya * d, 1);
+    ecc_shift(0, 1);
+    assert((CA() + 3) % P() == 0);
+    ring_dbl_slope(xa, ya, lam, d, CA());
+    ecc_lin3(lam - (3 * xa * xa + CA()) * d, 2 * ya, 2 * ya * d - 1, 3 * xa * xa + CA(), CA() + 3);
+    let e = 2 * ya * lam - (3 * xa * xa - 3);
+    assert(e % P() == 0);
+    // x3 / z3^2
+    let s = (lam * lam - xa - xa) % P();
+    let K = ((z * z * z * z) * (z * z * z * z)) * (2 * ya * lam + (3 * xa * xa - 3));
+    ring_dbl_x(xa, ya, z, lam);
+    assert((lam * lam - xa - xa) * (Z3 * Z3) - X3 == e * K);
+    ecc_lin1(e, K);
+    ecc_diff((lam * lam - xa - xa) * (Z3 * Z3), X3);
+    ecc_modmod(lam * lam - xa - xa);
+    ecc_cong_mul(s, lam * lam - xa - xa, Z3 * Z3);
+    ecc_div2(x3, s, Z3, w);
+    assert((x3 * w * w) % P() == s);
+    // y3 / z3^3
+    let t = lam * (xa - s) - ya;
+    let K2 = (z * z * z * z) * (L - s * (Z3 * Z3));
+    let e2 = s * (Z3 * Z3) - X3;
+    ring_dbl_y(xa, ya, z, lam, s);
+    assert(t * (Z3 * Z3 * Z3) - Y3 == e * K2 - e2 * A);
+    ecc_diff(s * (Z3 * Z3), X3);
+    ecc_lin2(e, K2, e2, A);
+    ecc_diff(t * (Z3 * Z3 * Z3), Y3);
+    let yr = t % P();
+    ecc_modmod(t);
+    ecc_cong_mul(yr, t, Z3 * Z3 * Z3);
+    ecc_div3(y3, yr, Z3, w);
+    assert((y3 * w * w * w) % P() == yr);
+    assert((ya + ya) % P() != 0);
+}
+// point_dbl against the group law
+pub proof fn ecc_dbl_main(x: Seq<u64>, y: Seq<u64>, z: Seq<u64>, x3: Seq<u64>, y3: Seq<u64>, z3: Seq<u64>, zz: int, yy: int, al: int, l6: int, u1: int, u2: int, yz: int)
+    requires canon(x), canon(y), canon(z), canon(x3), canon(y3), canon(z3), on_curve(abs_pt(x, y, z)),
+        ecc_dbl_rel(fe(x), fe(y), fe(z), zz, yy, al, l6, fe(x3), u1, u2, fe(y3), yz, fe(z3))
+    ensures abs_pt(x3, y3, z3) == g_add(abs_pt(x, y, z), abs_pt(x, y, z)), on_curve(abs_pt(x3, y3, z3))
+{
+    ecc_pos(); ecc_small(0);
+    let (X, Y, Z) = (fe(x), fe(y), fe(z));
+    ecc_fe_range(x); ecc_fe_range(y); ecc_fe_range(z); ecc_fe_range(x3); ecc_fe_range(y3); ecc_fe_range(z3);
+    ecc_fe_zero(z); ecc_fe_zero(z3);
+    ax_group_closed(abs_pt(x, y, z), abs_pt(x, y, z));
+    if val4(z) == 0 {
+        ecc_dbl_chain(X, Y, Z, zz, yy, al, l6, fe(x3), u1, u2, fe(y3), yz, fe(z3), X, Y, Z);
+        ring_dbl_z(Y, Z);
+        assert(2 * Y * Z == 0) by(nonlinear_arith) requires Z == 0;
+        ecc_small(fe(z3));
+        assert(val4(z3) == 0);
+    } else {
+        ecc_dbl_aff(X, Y, Z, zz, yy, al, l6, fe(x3), u1, u2, fe(y3), yz, fe(z3));
+    }
+}
+// ---------------------------------------------------------------- point_add
+// two points with the same x on the curve are equal or opposite
+pub proof fn ecc_same_x(x: int, y1: int, y2: int)
+    requires on_curve(Pt::Aff { x: x, y: y1 }), on_curve(Pt::Aff { x: x, y: y2 }), (y1 + y2) % P() != 0
+    ensures y1 == y2
+{
+    ecc_pos();
+    ecc_diff(y1 * y1, y2 * y2);
+    ring_sqdiff(y1, y2);
+    if (y1 - y2) % P() != 0 { ecc_nz_mul(y1 - y2, y1 + y2); }
+    ecc_diff(y1, y2);
+    ecc_small(y1); ecc_small(y2);
+}
+// the values computed by the generic branch of point_add
+pub open spec fn ecc_add_rel(X1: int, Y1: int, Z1: int, X2: int, Y2: int, Z2: int, z1s: int, z2s: int, u1: int, u2: int, y1z2: int, s1: int, y2z1: int, s2: int,
+    h: int, r: int, hh: int, hhh: int, v: int, rs: int, rsh: int, x3: int, vx: int, rvx: int, s1h: int, y3: int, z3: int) -> bool {
+    z1s == (Z1 * Z1) % P() && z2s == (Z2 * Z2) % P() && u1 == (X1 * z2s) % P() && u2 == (X2 * z1s) % P()
+    && y1z2 == (Y1 * Z2) % P() && s1 == (y1z2 * z2s) % P() && y2z1 == (Y2 * Z1) % P() && s2 == (y2z1 * z1s) % P()
+    && h == (u2 - u1) % P() && r == (s2 - s1) % P() && hh == (h * h) % P() && hhh == (hh * h) % P() && v == (u1 * hh) % P()
+    && rs == (r * r) % P() && rsh == (rs - hhh) % P() && x3 == (rsh - (2 * v) % P()) % P() && vx == (v - x3) % P() && rvx == (r * vx) % P()
+    && s1h == (s1 * hhh) % P() && y3 == (rvx - s1h) % P() && z3 == (((Z1 * Z2) % P()) * h) % P()
+}
+// u1, u2, s1, s2 in terms of the affine coordinates and t = z1 z2
+pub proof fn ecc_add_pre(X1: int, Y1: int, Z1: int, X2: int, Y2: int, Z2: int, z1s: int, z2s: int, u1: int, u2: int, y1z2: int, s1: int, y2z1: int, s2: int,
+    x1a: int, y1a: int, x2a: int, y2a: int)
+    requires z1s == (Z1 * Z1) % P(), z2s == (Z2 * Z2) % P(), u1 == (X1 * z2s) % P(), u2 == (X2 * z1s) % P(),
+        y1z2 == (Y1 * Z2) % P(), s1 == (y1z2 * z2s) % P(), y2z1 == (Y2 * Z1) % P(), s2 == (y2z1 * z1s) % P(),
+        X1 % P() == (x1a * Z1 * Z1) % P(), Y1 % P() == (y1a * Z1 * Z1 * Z1) % P(), X2 % P() == (x2a * Z2 * Z2) % P(), Y2 % P() == (y2a * Z2 * Z2 * Z2) % P()
+    ensures ({ let t = Z1 * Z2; u1 % P() == (x1a * t * t) % P() && u2 % P() == (x2a * t * t) % P() && s1 % P() == (y1a * t * t * t) % P() && s2 % P() == (y2a * t * t * t) % P() })
+{
+    ecc_cm(z1s, Z1, Z1, Z1, Z1); ecc_cm(z2s, Z2, Z2, Z2, Z2);
+    ecc_cm(u1, X1, z2s, x1a * Z1 * Z1, Z2 * Z2); ring_add_u1(x1a, Z1, Z2);
+    ecc_cm(u2, X2, z1s, x2a * Z2 * Z2, Z1 * Z1); ring_add_u2(x2a, Z1, Z2);
+    ecc_cm(y1z2, Y1, Z2, y1a * Z1 * Z1 * Z1, Z2); ecc_cm(s1, y1z2, z2s, (y1a * Z1 * Z1 * Z1) * Z2, Z2 * Z2); ring_add_s1(y1a, Z1, Z2);
+    ecc_cm(y2z1, Y2, Z1, y2a * Z2 * Z2 * Z2, Z1); ecc_cm(s2, y2z1, z1s, (y2a * Z2 * Z2 * Z2) * Z1, Z1 * Z1); ring_add_s2(y2a, Z1, Z2);
+}
+// the rest of the chain, evaluated at anything congruent to u1, u2, s1, s2, z1 z2
+pub proof fn ecc_add_chain(u1: int, u2: int, s1: int, s2: int, zz: int, h: int, r: int, hh: int, hhh: int, v: int, rs: int, rsh: int, x3: int, vx: int, rvx: int, s1h: int, y3: int, z3: int,
+    U1: int, U2: int, S1: int, S2: int, T: int)
+    requires h == (u2 - u1) % P(), r == (s2 - s1) % P(), hh == (h * h) % P(), hhh == (hh * h) % P(), v == (u1 * hh) % P(),
+        rs == (r * r) % P(), rsh == (rs - hhh) % P(), x3 == (rsh - (2 * v) % P()) % P(), vx == (v - x3) % P(), rvx == (r * vx) % P(),
+        s1h == (s1 * hhh) % P(), y3 == (rvx - s1h) % P(), z3 == (zz * h) % P(),
+        u1 % P() == U1 % P(), u2 % P() == U2 % P(), s1 % P() == S1 % P(), s2 % P() == S2 % P(), zz % P() == T % P()
+    ensures ({
+        let H = U2 - U1; let R = S2 - S1; let HHH = (H * H) * H; let V = U1 * (H * H); let X3 = R * R - HHH - 2 * V;
+        h % P() == H % P() && x3 % P() == X3 % P() && y3 % P() == (R * (V - X3) - S1 * HHH) % P() && z3 % P() == (T * H) % P() })
+{
+    let p = P();
+    let H = U2 - U1; let R = S2 - S1; let HHH = (H * H) * H; let V = U1 * (H * H); let X3 = R * R - HHH - 2 * V;
+    ecc_cs(h, u2, u1, U2, U1);
+    ecc_cs(r, s2, s1, S2, S1);
+    ecc_cm(hh, h, h, H, H);
+    ecc_cm(hhh, hh, h, H * H, H);
+    ecc_cm(v, u1, hh, U1, H * H);
+    ecc_cm(rs, r, r, R, R);
+    ecc_cs(rsh, rs, hhh, R * R, HHH);
+    let v2 = (2 * v) % p; ecc_ck(v2, 2, v, V);
+    ecc_cs(x3, rsh, v2, R * R - HHH, 2 * V);
+    ecc_cs(vx, v, x3, V, X3);
+    ecc_cm(rvx, r, vx, R, V - X3);
+    ecc_cm(s1h, s1, hhh, S1, HHH);
+    ecc_cs(y3, rvx, s1h, R * (V - X3), S1 * HHH);
+    ecc_cm(z3, zz, h, T, H);
+}
+#[verifier::external_body]
+pub proof fn ring_add_u1(x: int, z1: int, z2: int)
+    ensures (x * z1 * z1) * (z2 * z2)
+        == x * (z1 * z2) * (z1 * z2)
+{ }
+#[verifier::external_body]
+pub proof fn ring_add_u2(x: int, z1: int, z2: int)
+    ensures (x * z2 * z2) * (z1 * z1)
+        == x * (z1 * z2) * (z1 * z2)
+{ }
+#[verifier::external_body]
+pub proof fn ring_add_s1(y: int, z1: int, z2: int)
+    ensures ((y * z1 * z1 * z1) * z2) * (z2 * z2)
+        == y * (z1 * z2) * (z1 * z2) * (z1 * z2)
+{ }
+#[verifier::external_body]
+pub proof fn ring_add_s2(y: int, z1: int, z2: int)
+    ensures ((y * z2 * z2 * z2) * z1) * (z1 * z1)
+        == y * (z1 * z2) * (z1 * z2) * (z1 * z2)
+{ }
+#[verifier::external_body]
+pub proof fn ring_add_h(x1a: int, x2a: int, t: int)
+    ensures ((x2a * t * t) - (x1a * t * t))
+        == (x2a - x1a) * (t * t)
+{ }
+#[verifier::external_body]
+pub proof fn ring_add_slope(dx: int, dy: int, lam: int, d: int)
+    ensures lam * dx - dy
+        == (lam - dy * d) * dx + (dx * d - 1) * dy
+{ }
+#[verifier::external_body]
+pub proof fn ring_add_x(x1a: int, y1a: int, x2a: int, y2a: int, t: int, lam: int)
+    ensures (lam * lam - x1a - x2a) * ((t * ((x2a * t * t) - (x1a * t * t))) * (t * ((x2a * t * t) - (x1a * t * t)))) - (((y2a * t * t * t) - (y1a * t * t * t)) * ((y2a * t * t * t) - (y1a * t * t * t)) - ((((x2a * t * t) - (x1a * t * t)) * ((x2a * t * t) - (x1a * t * t))) * ((x2a * t * t) - (x1a * t * t))) - 2 * ((x1a * t * t) * (((x2a * t * t) - (x1a * t * t)) * ((x2a * t * t) - (x1a * t * t)))))
+        == (lam * (x2a - x1a) - (y2a - y1a)) * (((t * t * t) * (t * t * t)) * (lam * (x2a - x1a) + (y2a - y1a)))
+{ }
+#[verifier::external_body]
+pub proof fn ring_add_y(x1a: int, y1a: int, x2a: int, y2a: int, t: int, lam: int, s: int)
+    ensures (lam * (x1a - s) - y1a) * ((t * ((x2a * t * t) - (x1a * t * t))) * (t * ((x2a * t * t) - (x1a * t * t))) * (t * ((x2a * t * t) - (x1a * t * t)))) - (((y2a * t * t * t) - (y1a * t * t * t)) * (((x1a * t * t) * (((x2a * t * t) - (x1a * t * t)) * ((x2a * t * t) - (x1a * t * t)))) - (((y2a * t * t * t) - (y1a * t * t * t)) * ((y2a * t * t * t) - (y1a * t * t * t)) - ((((x2a * t * t) - (x1a * t * t)) * ((x2a * t * t) - (x1a * t * t))) * ((x2a * t * t) - (x1a * t * t))) - 2 * ((x1a * t * t) * (((x2a * t * t) - (x1a * t * t)) * ((x2a * t * t) - (x1a * t * t)))))) - (y1a * t * t * t) * ((((x2a * t * t) - (x1a * t * t)) * ((x2a * t * t) - (x1a * t * t))) * ((x2a * t * t) - (x1a * t * t))))
+        == (lam * (x2a - x1a) - (y2a - y1a)) * ((t * t * t) * (((x1a * t * t) * (((x2a * t * t) - (x1a * t * t)) * ((x2a * t * t) - (x1a * t * t)))) - s * ((t * ((x2a * t * t) - (x1a * t * t))) * (t * ((x2a * t * t) - (x1a * t * t)))))) - (s * ((t * ((x2a * t * t) - (x1a * t * t))) * (t * ((x2a * t * t) - (x1a * t * t)))) - (((y2a * t * t * t) - (y1a * t * t * t)) * ((y2a * t * t * t) - (y1a * t * t * t)) - ((((x2a * t * t) - (x1a * t * t)) * ((x2a * t * t) - (x1a * t * t))) * ((x2a * t * t) - (x1a * t * t))) - 2 * ((x1a * t * t) * (((x2a * t * t) - (x1a * t * t)) * ((x2a * t * t) - (x1a * t * t)))))) * ((y2a * t * t * t) - (y1a * t * t * t))
+{ }
+#[verifier::external_body]
+pub proof fn ring_sqdiff(a: int, b: int)
+    ensures (a - b) * (a + b)
+        == a * a - b * b
+{ }
+// the chord law for Jacobian inputs with Z1, Z2 != 0 (pure integer statement)
+pub proof fn ecc_add_aff(X1: int, Y1: int, Z1: int, X2: int, Y2: int, Z2: int, z1s: int, z2s: int, u1: int, u2: int, y1z2: int, s1: int, y2z1: int, s2: int,
+    h: int, r: int, hh: int, hhh: int, v: int, rs: int, rsh: int, x3: int, vx: int, rvx: int, s1h: int, y3: int, z3: int)
+    requires 0 <= X1 < P(), 0 <= Y1 < P(), 0 < Z1 < P(), 0 <= X2 < P(), 0 <= Y2 < P(), 0 < Z2 < P(), 0 <= x3 < P(), 0 <= y3 < P(), 0 <= z3 < P(),
+        ecc_add_rel(X1, Y1, Z1, X2, Y2, Z2, z1s, z2s, u1, u2, y1z2, s1, y2z1, s2, h, r, hh, hhh, v, rs, rsh, x3, vx, rvx, s1h, y3, z3),
+        on_curve(Pt::Aff { x: (X1 * inv_p(Z1) * inv_p(Z1)) % P(), y: (Y1 * inv_p(Z1) * inv_p(Z1) * inv_p(Z1)) % P() }),
+        on_curve(Pt::Aff { x: (X2 * inv_p(Z2) * inv_p(Z2)) % P(), y: (Y2 * inv_p(Z2) * inv_p(Z2) * inv_p(Z2)) % P() }),
+    ensures ({
+        let a = Pt::Aff { x: (X1 * inv_p(Z1) * inv_p(Z1)) % P(), y: (Y1 * inv_p(Z1) * inv_p(Z1) * inv_p(Z1)) % P() };
+        let b = Pt::Aff { x: (X2 * inv_p(Z2) * inv_p(Z2)) % P(), y: (Y2 * inv_p(Z2) * inv_p(Z2) * inv_p(Z2)) % P() };
+        let w = inv_p(z3);
+        (a == b ==> z3 == 0) && (a != b ==> g_add(a, b) == (if z3 == 0 { Pt::Inf } else { Pt::Aff { x: (x3 * w * w) % P(), y: (y3 * w * w * w) % P() } })) })
+{
+    ecc_pos(); ecc_small(0); ecc_small(1); ecc_small(2);
+    let zi1 = inv_p(Z1); let x1a = (X1 * zi1 * zi1) % P(); let y1a = (Y1 * zi1 * zi1 * zi1) % P();
+    let zi2 = inv_p(Z2); let x2a = (X2 * zi2 * zi2) % P(); let y2a = (Y2 * zi2 * zi2 * zi2) % P();
+    ecc_aff_nonzero(X1, Y1, Z1); ecc_aff_nonzero(X2, Y2, Z2);
+    ecc_param(X1, Y1, Z1, zi1, x1a, y1a); ecc_param(X2, Y2, Z2, zi2, x2a, y2a);
+    let t = Z1 * Z2;
+    ecc_add_pre(X1, Y1, Z1, X2, Y2, Z2, z1s, z2s, u1, u2, y1z2, s1, y2z1, s2, x1a, y1a, x2a, y2a);
+    let U1 = x1a * t * t; let U2 = x2a * t * t; let S1 = y1a * t * t * t; let S2 = y2a * t * t * t;
+    let H = U2 - U1; let R = S2 - S1; let HHH = (H * H) * H; let V = U1 * (H * H); let X3 = R * R - HHH - 2 * V;
+    let Y3 = R * (V - X3) - S1 * HHH; let Z3 = t * H;
+    let zz = (Z1 * Z2) % P();
+    ecc_modmod(Z1 * Z2);
+    ecc_add_chain(u1, u2, s1, s2, zz, h, r, hh, hhh, v, rs, rsh, x3, vx, rvx, s1h, y3, z3, U1, U2, S1, S2, t);
+    assert(h % P() == H % P() && x3 % P() == X3 % P() && y3 % P() == Y3 % P() && z3 % P() == Z3 % P());
+    ecc_range(u2 - u1); ecc_small(h); ecc_small(z3);
+    ecc_range(X1 * zi1 * zi1); ecc_range(X2 * zi2 * zi2); ecc_range(Y1 * zi1 * zi1 * zi1); ecc_range(Y2 * zi2 * zi2 * zi2);
+    ecc_small(x1a); ecc_small(x2a); ecc_small(y1a); ecc_small(y2a);
+    ring_add_h(x1a, x2a, t);
+    let dx = x2a - x1a; let dy = y2a - y1a;
+    if x1a == x2a {
+        assert(dx * (t * t) == 0) by(nonlinear_arith) requires dx == 0;
+        assert(h == 0);
+        assert(zz * h == 0) by(nonlinear_arith) requires h == 0;
+        assert(z3 == 0);
+        if (y1a + y2a) % P() != 0 {
+            ecc_same_x(x1a, y1a, y2a);
+        }
+    } else {
+        // h and z3 are units
+        ecc_diff(x2a, x1a);
+        assert(dx % P() != 0);
+        ecc_small(Z1); ecc_small(Z2);
+        ecc_nz_mul(Z1, Z2); ecc_nz_mul(t, t); ecc_nz_mul(dx, t * t); ecc_nz_mul(t, H);
+        assert(z3 != 0);
+        ax_inv_p(z3);
+        let w = inv_p(z3);
+        ecc_cong_mul(z3, Z3, w);
+        // the slope: lam dx == dy
+        ax_inv_p(dx);
+        let d = inv_p(dx);
+        let lam = (dy * d) % P();
+        ecc_modmod(dy * d);
+        ecc_diff(lam, dy * d);
+        ecc_diff(dx * d, 1);
+        ring_add_slope(dx, dy, lam, d);
+        ecc_lin2(lam - dy * d, dx, dx * d - 1, dy);
+        let e = lam * (x2a - x1a) - (y2a - y1a);
+        assert(e % P() == 0);
+        // x3 / z3^2
+        let s = (lam * lam - x1a - x2a) % P();
+        let K = ((t * t * t) * (t * t * t)) * (lam * (x2a - x1a) + (y2a - y1a));
+        ring_add_x(x1a, y1a, x2a, y2a, t, lam);
+        assert((lam * lam - x1a - x2a) * (Z3 * Z3) - X3 == e * K);
+        ecc_lin1(e, K);
+        ecc_diff((lam * lam - x1a - x2a) * (Z3 * Z3), X3);
+        ecc_modmod(lam * lam - x1a - x2a);
+        ecc_cong_mul(s, lam * lam - x1a - x2a, Z3 * Z3);
+        ecc_div2(x3, s, Z3, w);
+        assert((x3 * w * w) % P() == s);
+        // y3 / z3^3
+        let tt = lam * (x1a - s) - y1a;
+        let K2 = (t * t * t) * (V - s * (Z3 * Z3));
+        let e2 = s * (Z3 * Z3) - X3;
+        ring_add_y(x1a, y1a, x2a, y2a, t, lam, s);
+        assert(tt * (Z3 * Z3 * Z3) - Y3 == e * K2 - e2 * R);
+        ecc_diff(s * (Z3 * Z3), X3);
+        ecc_lin2(e, K2, e2, R);
+        ecc_diff(tt * (Z3 * Z3 * Z3), Y3);
+        let yr = tt % P();
+        ecc_modmod(tt);
+        ecc_cong_mul(yr, tt, Z3 * Z3 * Z3);
+        ecc_div3(y3, yr, Z3, w);
+        assert((y3 * w * w * w) % P() == yr);
+    }
+}
+// the generic branch of point_add against the group law
+pub proof fn ecc_add_main(x1: Seq<u64>, y1: Seq<u64>, z1: Seq<u64>, x2: Seq<u64>, y2: Seq<u64>, z2: Seq<u64>, x3: Seq<u64>, y3: Seq<u64>, z3: Seq<u64>,
+    z1s: int, z2s: int, u1: int, u2: int, y1z2: int, s1: int, y2z1: int, s2: int, h: int, r: int, hh: int, hhh: int, v: int, rs: int, rsh: int, vx: int, rvx: int, s1h: int)
+    requires canon(x1), canon(y1), canon(z1), canon(x2), canon(y2), canon(z2), canon(x3), canon(y3), canon(z3),
+        val4(z1) != 0, val4(z2) != 0, on_curve(abs_pt(x1, y1, z1)), on_curve(abs_pt(x2, y2, z2)),
+        ecc_add_rel(fe(x1), fe(y1), fe(z1), fe(x2), fe(y2), fe(z2), z1s, z2s, u1, u2, y1z2, s1, y2z1, s2, h, r, hh, hhh, v, rs, rsh, fe(x3), vx, rvx, s1h, fe(y3), fe(z3))
+    ensures abs_pt(x1, y1, z1) == abs_pt(x2, y2, z2) ==> val4(z3) == 0,
+        abs_pt(x1, y1, z1) != abs_pt(x2, y2, z2) ==> abs_pt(x3, y3, z3) == g_add(abs_pt(x1, y1, z1), abs_pt(x2, y2, z2)) && on_curve(abs_pt(x3, y3, z3))
+{
+    ecc_pos(); ecc_small(0);
+    ecc_fe_range(x1); ecc_fe_range(y1); ecc_fe_range(z1); ecc_fe_range(x2); ecc_fe_range(y2); ecc_fe_range(z2); ecc_fe_range(x3); ecc_fe_range(y3); ecc_fe_range(z3);
+    ecc_fe_zero(z1); ecc_fe_zero(z2); ecc_fe_zero(z3);
+    ax_group_closed(abs_pt(x1, y1, z1), abs_pt(x2, y2, z2));
+    ecc_add_aff(fe(x1), fe(y1), fe(z1), fe(x2), fe(y2), fe(z2), z1s, z2s, u1, u2, y1z2, s1, y2z1, s2, h, r, hh, hhh, v, rs, rsh, fe(x3), vx, rvx, s1h, fe(y3), fe(z3));
 }
